@@ -751,6 +751,23 @@ theorem gex_unaffected_by_fix (bs : List Int) (a b c : Int) :
       = pickSize bs (gexTriple a b c).1 (gexTriple a b c).2.1 (gexTriple a b c).2.2 :=
   pickSizeOld_eq_of_le _ _ _ _ (gexTriple_spec a b c).1
 
+/-! ## history independence: several requests on one ModulusPack -/
+
+/-- **Every answer depends on its own request only.**  For every pack and every history of requests on the same
+object, the k-th answer is the one-shot answer to the k-th request (so `get_modulus_statement` applies to each of
+them), and the object is unchanged. -/
+theorem getSession_spec (p : Pack) (reqs : List Request) :
+    p.getSession reqs =
+      (p, reqs.map fun r => p.getModulus (fun n => r.2.2.2 % n) r.1 r.2.1 r.2.2.1) := by
+  induction reqs with
+  | nil => rfl
+  | cons r rs ih => simp [Pack.getSession, Pack.getStep, ih]
+
+/-- sizes {1024, 8192}: (2048, 2048, 4096) has nothing in range (closest offered), the following
+(1024, 2048, 4096) on the same object must still be answered with the in-range 1024-bit group -/
+example : (Pack.getSession ⟨[(1024, [(2, 11)]), (8192, [(2, 13)])], []⟩ [(2048, 2048, 4096, 0), (1024, 2048, 4096, 0)]).2
+    = [.ok (2, 13), .ok (2, 11)] := by rfl
+
 /-! ## non-vacuity -/
 
 /-- a two-line moduli file: an 8-bit and a 12-bit group, plus a comment and a line failing the tests field -/
